@@ -90,6 +90,11 @@ def _chrom_pool(rng, style, dotted=True, exotic=True):
         pool += rng.sample(contigs, rng.randint(1, 4))
     if dotted and rng.random() < 0.35:
         pool += rng.sample(["GL000207.1", "KI270728.1", "NC_000001.11", "JH584304.1", p + "Un_GL000218.1"], rng.randint(1, 3))
+        if rng.random() < 0.6:
+            # names that agree up to a dot / differ only after it (round-4 seed C08-r4: a sort key cut at
+            # the first dot merges such contigs into one block ordered by start only)
+            pool += rng.choice([["GL000220.1", "GL000220.2"], ["NC_000001.10", "NC_000001.11", "NC_000001.9"],
+                                [p + "1.a", p + "1.b"], ["ctg7.p", "ctg7.q", "ctg7.10"]])
     out = []
     for c in pool:
         if c not in out:
@@ -1200,6 +1205,11 @@ def _order_clauses(rows):
                 out.append("natural_chromosome_order")
             if a[0] == b[0] and (a[1], a[2]) > (b[1], b[2]) and "start_then_end_order" not in out:
                 out.append("start_then_end_order")
+    names = [r[0] for r in rows]
+    blocks = [n for k, n in enumerate(names) if k == 0 or names[k - 1] != n]
+    folded = {(n[3:] if n[:3].lower() == "chr" else n).lower() for n in set(names)}
+    if len(folded) == len(set(names)) and len(blocks) != len(set(blocks)):
+        out.append("chromosomes_contiguous")
     return out
 
 
